@@ -270,6 +270,13 @@ func streamHCheck(t *testing.T, o *Out) {
 				&ketoapi.RelationTuple{Namespace: "Group", Object: "a", Relation: gmem, SubjectSet: &ketoapi.SubjectSet{Namespace: "Group", Object: "b", Relation: gmem}},
 				&ketoapi.RelationTuple{Namespace: "Group", Object: "b", Relation: gmem, SubjectSet: &ketoapi.SubjectSet{Namespace: "Group", Object: "c", Relation: gmem}},
 				&ketoapi.RelationTuple{Namespace: "Group", Object: "c", Relation: gmem, SubjectID: &alice},
+				// a chain of six groups below Doc:d: answers that need a depth above the default limit of 5
+				&ketoapi.RelationTuple{Namespace: "Doc", Object: "d", Relation: "viewers", SubjectSet: &ketoapi.SubjectSet{Namespace: "Group", Object: "d1", Relation: gmem}},
+				&ketoapi.RelationTuple{Namespace: "Group", Object: "d1", Relation: gmem, SubjectSet: &ketoapi.SubjectSet{Namespace: "Group", Object: "d2", Relation: gmem}},
+				&ketoapi.RelationTuple{Namespace: "Group", Object: "d2", Relation: gmem, SubjectSet: &ketoapi.SubjectSet{Namespace: "Group", Object: "d3", Relation: gmem}},
+				&ketoapi.RelationTuple{Namespace: "Group", Object: "d3", Relation: gmem, SubjectSet: &ketoapi.SubjectSet{Namespace: "Group", Object: "d4", Relation: gmem}},
+				&ketoapi.RelationTuple{Namespace: "Group", Object: "d4", Relation: gmem, SubjectSet: &ketoapi.SubjectSet{Namespace: "Group", Object: "d5", Relation: gmem}},
+				&ketoapi.RelationTuple{Namespace: "Group", Object: "d5", Relation: gmem, SubjectID: &alice},
 				&ketoapi.RelationTuple{Namespace: "Team", Object: "a", Relation: gmem, SubjectID: &alice},
 				&ketoapi.RelationTuple{Namespace: "Doc", Object: "c", Relation: "viewers", SubjectSet: &ketoapi.SubjectSet{Namespace: "Team", Object: "a", Relation: gmem}})
 			its, err := env.reg.Mapper().FromTuple(env.ctx, ts...)
@@ -284,6 +291,12 @@ func streamHCheck(t *testing.T, o *Out) {
 				// warm whatever the read path remembers about the namespace Team
 				env.reg.PermissionEngine().CheckRelationTuple(env.ctx, it[0], 0)
 			}
+			// the configured global depth limit of this block: the default (5), a lower and a higher one
+			gd := []int{5, 5, 3, 8, 7}[(i/10)%5]
+			if err := env.reg.Config(env.ctx).Set(config.KeyLimitMaxReadDepth, gd); err != nil {
+				t.Fatal(err)
+			}
+			o.Count(fmt.Sprintf("global-depth:%d", gd))
 			if (i/10)%3 == 2 {
 				if err := env.setOPL(hcheckOPLNoTeam); err != nil {
 					t.Fatal(err)
@@ -296,7 +309,7 @@ func streamHCheck(t *testing.T, o *Out) {
 				}
 			}
 		}
-		depth := []int{0, 0, 0, 3, 1, -1, 50}[r.Intn(7)]
+		depth := []int{0, 0, 0, 3, 1, -1, 50, 6, 7, 2}[r.Intn(10)]
 		k := 1 + r.Intn(5)
 		entries := make([]hEntry, k)
 		for j := range entries {
@@ -308,7 +321,7 @@ func streamHCheck(t *testing.T, o *Out) {
 			case r.Intn(3) == 0:
 				// entries that share intermediate subject sets
 				al := "alice"
-				tt = &ketoapi.RelationTuple{Namespace: "Doc", Object: pick(r, []string{"a", "b"}), Relation: pick(r, []string{"viewers", "view", "ok"}), SubjectID: &al}
+				tt = &ketoapi.RelationTuple{Namespace: "Doc", Object: pick(r, []string{"a", "b", "d", "d"}), Relation: pick(r, []string{"viewers", "view", "ok"}), SubjectID: &al}
 			}
 			en := hEntry{t: tt, tupleOk: tt.SubjectID != nil || tt.SubjectSet != nil, nsKnown: true}
 			// known namespaces: asked from the namespace manager of the configuration in force,
@@ -361,6 +374,14 @@ func streamHCheck(t *testing.T, o *Out) {
 			c3, b3, _ := env.do(env.read, "POST", check.RouteBase+"?"+strings.TrimPrefix(dq, "&"), body)
 			c4, b4, _ := env.do(env.read, "POST", check.OpenAPIRouteBase+"?"+strings.TrimPrefix(dq, "&"), body)
 			gr, gerr := env.chk.Check(env.ctx, &rts.CheckRequest{Tuple: protoTuple(en.t), MaxDepth: int32(depth)})
+			// the deprecated flat form of the same request (fields of the request instead of `tuple`)
+			pt := protoTuple(en.t)
+			gr2, gerr2 := env.chk.Check(env.ctx, &rts.CheckRequest{Namespace: pt.Namespace, Object: pt.Object, Relation: pt.Relation, Subject: pt.Subject, MaxDepth: int32(depth)})
+			if g1, g2 := grpcCanon(gr.GetAllowed(), gerr), grpcCanon(gr2.GetAllowed(), gerr2); g1 != g2 {
+				gr, gerr = gr2, gerr2
+				o.Count("grpc-flat-differs")
+				fmt.Fprintf(&impl, "x_flat%d=tuple-form:%s flat-form:%s\t", j, g1, g2)
+			}
 			m1, m3 := httpCanon(c1, b1, true), httpCanon(c3, b3, true)
 			o1, o3 := httpCanon(c2, b2, false), httpCanon(c4, b4, false)
 			mirror, open := m1, o1
